@@ -22,6 +22,8 @@ int curTick = 0;
 std::function<int(const std::string&, const std::string&)> decide;
 std::vector<HookEvent> hookEvents;
 Oomd::OomdContext* curCtx = nullptr;
+Oomd::Config2::IR::Root* lastIr = nullptr;
+Oomd::Engine::Engine* lastEngine = nullptr;
 std::function<bool(const std::string&, long, int)> hookDecide;
 static long g_instSerial = 0;
 static long g_invSerial = 0;
@@ -78,6 +80,9 @@ std::unique_ptr<Oomd::Oomd> make(const std::string& json, std::string* err, int 
     if (err) *err = "compile returned null";
     return nullptr;
   }
+  // the daemon takes ownership; the objects stay where they are, so these stay valid for the daemon's lifetime
+  lastIr = ir.get();
+  lastEngine = engine.get();
   return std::make_unique<Oomd::Oomd>(std::move(ir), std::move(engine), interval, world::cgfs(), dropInDir, io.devs,
                                       io.hdd, io.ssd);
 }
